@@ -1,71 +1,122 @@
 import MetadorModel.Gen.Diff
 import MetadorModel.Bridge.DiffBase
-/-! Bridge (C18): the generated `DiffNode.compare` equals the model's `compareAt` (`addT`/`remT`/`cmpT`) on
-well-formed entries (key-sorted directories = Python dicts) whenever the recursion limit exceeds the
-nesting depth. -/
+/-! Bridge (C18): the generated `DiffNode.compare` — for *every* order `ord` in which Python may
+iterate over the key sets and over the items of the two snapshots (any permutation) — returns, on
+well-formed entries (key-sorted directories = Python dicts) and whenever the recursion limit
+exceeds the nesting depth, a node that is the model's `compareAt` (`addT`/`remT`/`cmpT`) once the
+insertion order of its three dicts is forgotten (`canon`: buckets in ascending order of the paths,
+which is the order `nodes()` lists them in and `get()` does not depend on). -/
 set_option linter.unusedSimpArgs false
 namespace MetadorModel.Bridge.Diff
 open MetadorModel MetadorModel.Diff MetadorModel.DiffPy
 
-theorem gen_compare : ∀ (fuel : Nat) (prev curr : Option DirTree) (path : Path),
+theorem pyEq_file (s s' : String) : pyEq (some (.file s)) (some (.file s')) = decide (s = s') := by
+  by_cases h : s = s' <;> simp [pyEq, treeEq, h]
+
+theorem canon_leaf (p : Path) (pv cv : Option DirTree) : canon (.mk p pv cv [] [] []) = .mk p pv cv [] [] [] := by
+  simp [canon, canonL, sortedByPath]
+
+theorem gen_compare (ord : IterOrd) (hord : PermOrd ord) :
+    ∀ (fuel : Nat) (prev curr : Option DirTree) (path : Path),
     wfO prev → wfO curr → max (depthO prev) (depthO curr) < fuel →
-    Gen.Diff.compare fuel prev curr path = .ok (compareAt path prev curr) := by
+    ∃ r, Gen.Diff.compare ord fuel prev curr path = .ok r ∧ r.map canon = compareAt path prev curr := by
   intro fuel
   induction fuel with
   | zero => intro _ _ _ _ _ h; omega
   | succ fuel IH =>
     intro prev curr path hp hc hd
+    -- the result of a recursive call, as a function
+    let res : Option DirTree → Option DirTree → Path → Option DNode := fun pv cv p =>
+      match Gen.Diff.compare ord fuel pv cv p with
+      | .ok r => r
+      | .error _ => none
+    have hres : ∀ pv cv p, wfO pv → wfO cv → max (depthO pv) (depthO cv) < fuel →
+        Gen.Diff.compare ord fuel pv cv p = .ok (res pv cv p) ∧ (res pv cv p).map canon = compareAt p pv cv := by
+      intro pv cv p h1 h2 h3
+      obtain ⟨r, hr, hr'⟩ := IH pv cv p h1 h2 h3
+      have : res pv cv p = r := by simp only [res, hr]
+      rw [this]; exact ⟨hr, hr'⟩
     rw [Gen.Diff.compare]
     rcases prev with _ | ⟨s⟩ | ⟨es⟩ <;> rcases curr with _ | ⟨s'⟩ | ⟨fs⟩
-    · simp [isDict, pyEq, compareAt]
-    · simp [isDict, pyEq, compareAt, addT, mkNode]
+    · exact ⟨none, by simp [isDict, pyEq], by simp [compareAt]⟩
+    · exact ⟨_, by simp [isDict, pyEq, mkNode]; rfl, by simp [compareAt, addT, canon_leaf]⟩
     · -- None -> dir
       have hw := (wf_dir fs).mp hc
+      have hr : ∀ k t, (k, t) ∈ fs → Gen.Diff.compare ord fuel none (some t) (path ++ [k]) =
+            .ok (res none (some t) (path ++ [k])) ∧
+          (res none (some t) (path ++ [k])).map canon = some (addT (path ++ [k]) t) := by
+        intro k t hm
+        simpa [compareAt] using hres none (some t) (path ++ [k]) trivial (wfEs_mem hw.2 hm)
+          (by have := depth_mem hm; simp only [depthO, depthT] at hd ⊢; omega)
       simp only [isDict, isStr, items, mkNode, Option.isNone_none, Bool.not_false, Bool.not_true, Bool.and_false,
         Bool.false_eq_true, if_false, Bool.or_false, Bool.and_self, if_true, pure_eq_ok, ok_bind]
-      rw [loop_added_items hw.1]
-      · simp [compareAt, addT]
+      rw [loop_added_items hord hw.1 (fun k t => res none (some t) (path ++ [k])) (fun k t hm => (hr k t hm).2)]
+      · refine ⟨_, rfl, ?_⟩
+        simp only [Option.map_some, canon, canonL, sortedByPath,
+          canon_added_items hord hw.1 _ (fun k t hm => (hr k t hm).2), compareAt, addT]
       · intro ad k t hm
-        have h1 := IH none (some t) (path ++ [k]) trivial (wfEs_mem hw.2 hm)
-          (by have := depth_mem hm; simp only [depthO, depthT] at hd ⊢; omega)
-        simp [pathJoin, DNode.path, h1, compareAt]
+        obtain ⟨d, hd'⟩ := Option.map_eq_some_iff.mp (hr k t hm).2
+        simp [pathJoin, DNode.path, (hr k t hm).1, hd'.1]
     · -- file -> None
-      simp [isDict, pyEq, compareAt, remT, mkNode]
+      exact ⟨_, by simp [isDict, pyEq, mkNode]; rfl, by simp [compareAt, remT, canon_leaf]⟩
     · -- file -> file
       simp only [isDict, Bool.not_false, Bool.and_self, if_true, pyEq_file, compareAt, cmpT, mkNode, pure_eq_ok]
-      by_cases h : s = s' <;> simp [h]
+      by_cases h : s = s'
+      · exact ⟨none, by simp [h], by simp [h]⟩
+      · exact ⟨_, by simp [h]; rfl, by simp [h, canon_leaf]⟩
     · -- file -> dir
       have hw := (wf_dir fs).mp hc
+      have hr : ∀ k t, (k, t) ∈ fs → Gen.Diff.compare ord fuel none (some t) (path ++ [k]) =
+            .ok (res none (some t) (path ++ [k])) ∧
+          (res none (some t) (path ++ [k])).map canon = some (addT (path ++ [k]) t) := by
+        intro k t hm
+        simpa [compareAt] using hres none (some t) (path ++ [k]) trivial (wfEs_mem hw.2 hm)
+          (by have := depth_mem hm; simp only [depthO, depthT] at hd ⊢; omega)
       simp only [isDict, isStr, items, mkNode, Option.isNone_some, Bool.not_false, Bool.not_true, Bool.and_false,
         Bool.false_eq_true, if_false, Bool.false_or, Bool.and_self, if_true, pure_eq_ok, ok_bind]
-      rw [loop_added_items hw.1]
-      · simp [compareAt, cmpT]
+      rw [loop_added_items hord hw.1 (fun k t => res none (some t) (path ++ [k])) (fun k t hm => (hr k t hm).2)]
+      · refine ⟨_, rfl, ?_⟩
+        simp only [Option.map_some, canon, canonL, sortedByPath,
+          canon_added_items hord hw.1 _ (fun k t hm => (hr k t hm).2), compareAt, cmpT]
       · intro ad k t hm
-        have h1 := IH none (some t) (path ++ [k]) trivial (wfEs_mem hw.2 hm)
-          (by have := depth_mem hm; simp only [depthO, depthT] at hd ⊢; omega)
-        simp [pathJoin, DNode.path, h1, compareAt]
+        obtain ⟨d, hd'⟩ := Option.map_eq_some_iff.mp (hr k t hm).2
+        simp [pathJoin, DNode.path, (hr k t hm).1, hd'.1]
     · -- dir -> None
       have hw := (wf_dir es).mp hp
+      have hr : ∀ k t, (k, t) ∈ es → Gen.Diff.compare ord fuel (some t) none (path ++ [k]) =
+            .ok (res (some t) none (path ++ [k])) ∧
+          (res (some t) none (path ++ [k])).map canon = some (remT (path ++ [k]) t) := by
+        intro k t hm
+        simpa [compareAt] using hres (some t) none (path ++ [k]) (wfEs_mem hw.2 hm) trivial
+          (by have := depth_mem hm; simp only [depthO, depthT] at hd ⊢; omega)
       simp only [isDict, isStr, items, mkNode, Option.isNone_some, Option.isNone_none, Bool.not_false, Bool.not_true,
         Bool.and_false, Bool.false_and, Bool.and_true, Bool.true_and,
         Bool.false_eq_true, if_false, Bool.false_or, Bool.or_false, Bool.and_self, if_true, pure_eq_ok, ok_bind]
-      rw [loop_removed_items hw.1]
-      · simp [compareAt, remT]
+      rw [loop_removed_items hord hw.1 (fun k t => res (some t) none (path ++ [k])) (fun k t hm => (hr k t hm).2)]
+      · refine ⟨_, rfl, ?_⟩
+        simp only [Option.map_some, canon, canonL, sortedByPath,
+          canon_removed_items hord hw.1 _ (fun k t hm => (hr k t hm).2), compareAt, remT]
       · intro rm k t hm
-        have h1 := IH (some t) none (path ++ [k]) (wfEs_mem hw.2 hm) trivial
-          (by have := depth_mem hm; simp only [depthO, depthT] at hd ⊢; omega)
-        simp [pathJoin, DNode.path, h1, compareAt]
+        obtain ⟨d, hd'⟩ := Option.map_eq_some_iff.mp (hr k t hm).2
+        simp [pathJoin, DNode.path, (hr k t hm).1, hd'.1]
     · -- dir -> file
       have hw := (wf_dir es).mp hp
+      have hr : ∀ k t, (k, t) ∈ es → Gen.Diff.compare ord fuel (some t) none (path ++ [k]) =
+            .ok (res (some t) none (path ++ [k])) ∧
+          (res (some t) none (path ++ [k])).map canon = some (remT (path ++ [k]) t) := by
+        intro k t hm
+        simpa [compareAt] using hres (some t) none (path ++ [k]) (wfEs_mem hw.2 hm) trivial
+          (by have := depth_mem hm; simp only [depthO, depthT] at hd ⊢; omega)
       simp only [isDict, isStr, items, mkNode, Option.isNone_some, Option.isNone_none, Bool.not_false, Bool.not_true,
         Bool.and_false, Bool.false_and, Bool.and_true, Bool.true_and,
         Bool.false_eq_true, if_false, Bool.false_or, Bool.or_false, Bool.and_self, if_true, pure_eq_ok, ok_bind]
-      rw [loop_removed_items hw.1]
-      · simp [compareAt, cmpT]
+      rw [loop_removed_items hord hw.1 (fun k t => res (some t) none (path ++ [k])) (fun k t hm => (hr k t hm).2)]
+      · refine ⟨_, rfl, ?_⟩
+        simp only [Option.map_some, canon, canonL, sortedByPath,
+          canon_removed_items hord hw.1 _ (fun k t hm => (hr k t hm).2), compareAt, cmpT]
       · intro rm k t hm
-        have h1 := IH (some t) none (path ++ [k]) (wfEs_mem hw.2 hm) trivial
-          (by have := depth_mem hm; simp only [depthO, depthT] at hd ⊢; omega)
-        simp [pathJoin, DNode.path, h1, compareAt]
+        obtain ⟨d, hd'⟩ := Option.map_eq_some_iff.mp (hr k t hm).2
+        simp [pathJoin, DNode.path, (hr k t hm).1, hd'.1]
     · -- dir -> dir
       have hwe := (wf_dir es).mp hp
       have hwf := (wf_dir fs).mp hc
@@ -73,42 +124,74 @@ theorem gen_compare : ∀ (fuel : Nat) (prev curr : Option DirTree) (path : Path
         intro k t h; have := depth_get h; simp only [depthO, depthT] at hd; omega
       have hdf : ∀ {k t}, AL.get fs k = some t → depthT t < fuel := by
         intro k t h; have := depth_get h; simp only [depthO, depthT] at hd; omega
+      -- the recursive calls of the three loops
+      have hra : ∀ k u, AL.get fs k = some u → Gen.Diff.compare ord fuel none (some u) (path ++ [k]) =
+            .ok (res none (some u) (path ++ [k])) ∧
+          (res none (some u) (path ++ [k])).map canon = some (addT (path ++ [k]) u) := by
+        intro k u hg
+        simpa [compareAt] using hres none (some u) (path ++ [k]) trivial (wfEs_get hwf.2 hg)
+          (by have := hdf hg; simp only [depthO]; omega)
+      have hrr : ∀ k t, AL.get es k = some t → Gen.Diff.compare ord fuel (some t) none (path ++ [k]) =
+            .ok (res (some t) none (path ++ [k])) ∧
+          (res (some t) none (path ++ [k])).map canon = some (remT (path ++ [k]) t) := by
+        intro k t hg
+        simpa [compareAt] using hres (some t) none (path ++ [k]) (wfEs_get hwe.2 hg) trivial
+          (by have := hde hg; simp only [depthO]; omega)
+      have hrm : ∀ k t u, AL.get es k = some t → AL.get fs k = some u →
+          Gen.Diff.compare ord fuel (some t) (some u) (path ++ [k]) =
+            .ok (res (some t) (some u) (path ++ [k])) ∧
+          (res (some t) (some u) (path ++ [k])).map canon = cmpT (path ++ [k]) t u := by
+        intro k t u hgt hgu
+        simpa [compareAt] using hres (some t) (some u) (path ++ [k]) (wfEs_get hwe.2 hgt) (wfEs_get hwf.2 hgu)
+          (by have := hde hgt; have := hdf hgu; simp only [depthO]; omega)
+      -- what the `modified` loop stores for the key of the entry (k, t) of prev
+      let cm : String → DirTree → Option DNode := fun k t =>
+        (AL.get fs k).bind (fun u => res (some t) (some u) (path ++ [k]))
+      have hcm : ∀ k t, AL.get es k = some t → (cm k t).map canon = (AL.get fs k).bind (cmpT (path ++ [k]) t) := by
+        intro k t hgt
+        simp only [cm]
+        cases hgu : AL.get fs k with
+        | none => rfl
+        | some u => simpa using (hrm k t u hgt hgu).2
       simp only [isDict, isStr, keys, mkNode, Option.isNone_some, Bool.not_false, Bool.not_true,
         Bool.and_false, Bool.false_and, Bool.and_true, Bool.true_and,
         Bool.false_eq_true, if_false, Bool.false_or, Bool.or_false, Bool.and_self, if_true, pure_eq_ok, ok_bind]
       -- the three loops, in whatever order the source has them
       iterate 3
         first
-        | (rw [loop_added_keys hwe.1 hwf.1]
+        | (rw [loop_added_keys hord hwe.1 hwf.1 (fun k u => res none (some u) (path ++ [k]))
+             (fun k u hg => (hra k u hg).2)]
            on_goal 2 =>
              intro ad k u hgu
-             have h1 := IH none (some u) (path ++ [k]) trivial (wfEs_get hwf.2 hgu)
-               (by have := hdf hgu; simp only [depthO]; omega)
-             simp [pathJoin, DNode.path, getItem, hgu, h1, compareAt]
+             obtain ⟨d, hd'⟩ := Option.map_eq_some_iff.mp (hra k u hgu).2
+             simp [pathJoin, DNode.path, getItem, hgu, (hra k u hgu).1, hd'.1]
            simp only [ok_bind])
-        | (rw [loop_removed_keys hwe.1 hwf.1]
+        | (rw [loop_removed_keys hord hwe.1 hwf.1 (fun k t => res (some t) none (path ++ [k]))
+             (fun k t hg => (hrr k t hg).2)]
            on_goal 2 =>
              intro rm k t hgt
-             have h1 := IH (some t) none (path ++ [k]) (wfEs_get hwe.2 hgt) trivial
-               (by have := hde hgt; simp only [depthO]; omega)
-             simp [pathJoin, DNode.path, getItem, hgt, h1, compareAt]
+             obtain ⟨d, hd'⟩ := Option.map_eq_some_iff.mp (hrr k t hgt).2
+             simp [pathJoin, DNode.path, getItem, hgt, (hrr k t hgt).1, hd'.1]
            simp only [ok_bind])
-        | (rw [loop_modified_keys hwe.1 hwf.1]
+        | (rw [loop_modified_keys hord hwe.1 hwf.1 cm hcm]
            on_goal 2 =>
              intro md k t u hgt hgu
-             have h1 := IH (some t) (some u) (path ++ [k]) (wfEs_get hwe.2 hgt) (wfEs_get hwf.2 hgu)
-               (by have := hde hgt; have := hdf hgu; simp only [depthO]; omega)
-             simp only [pathJoin, DNode.path, getItem, hgt, hgu, h1, compareAt, pure_eq_ok, ok_bind]
-             cases cmpT (path ++ [k]) t u <;> simp
+             simp only [pathJoin, DNode.path, getItem, hgt, hgu, (hrm k t u hgt hgu).1, pure_eq_ok, ok_bind,
+               cm, Option.bind_some]
+             cases res (some t) (some u) (path ++ [k]) <;> simp
            simp only [ok_bind])
-      simp only [compareAt, cmpT_dir_dir, DNode.added, DNode.removed, DNode.modified, Bool.not_not]
+      have h1 := canon_added_keys hord hwe.1 hwf.1 (path := path) _ (fun k u hg => (hra k u hg).2)
+      have h2 := canon_removed_keys hord hwe.1 hwf.1 (path := path) _ (fun k t hg => (hrr k t hg).2)
+      have h3 := canon_modified_keys hord hwe.1 hwf.1 (path := path) cm hcm
+      simp only [compareAt, cmpT_dir_dir, DNode.added, DNode.removed, DNode.modified, Bool.not_not,
+        isEmpty_of_canon h1, isEmpty_of_canon h2, isEmpty_of_canon h3]
       cases (addSel path fs es).isEmpty <;> cases (remSel path es fs).isEmpty <;>
-        cases (cmpEs path es fs).isEmpty <;> simp
+        cases (cmpEs path es fs).isEmpty <;> simp [canon, h1, h2, h3]
 
 /-- `DirDiff.compare(prev, curr)._diff_root` = `DiffNode.compare(prev, curr, Path(""))` -/
-theorem gen_compare_top (fuel : Nat) (a b : DirTree) (ha : a.wf = true) (hb : b.wf = true)
-    (hd : max (depthT a) (depthT b) < fuel) :
-    Gen.Diff.compare fuel (some a) (some b) [] = .ok (Diff.compare a b) :=
-  gen_compare fuel (some a) (some b) [] ha hb hd
+theorem gen_compare_top (ord : IterOrd) (hord : PermOrd ord) (fuel : Nat) (a b : DirTree)
+    (ha : a.wf = true) (hb : b.wf = true) (hd : max (depthT a) (depthT b) < fuel) :
+    ∃ r, Gen.Diff.compare ord fuel (some a) (some b) [] = .ok r ∧ r.map canon = Diff.compare a b :=
+  gen_compare ord hord fuel (some a) (some b) [] ha hb hd
 
 end MetadorModel.Bridge.Diff
